@@ -177,6 +177,78 @@ impl<'a> Iterator for Iter8<'a> {
 //@use bitstr.fns "impl<'a> Iterator for Iter8<'a>"::next
 }
 
+// ---- the printer of bit-strings (C16, last clause): the `Cell::Bitstr` arm of `fmt::Debug for Cell`, lifted by Rarm
+//@include spec/lit_specs.rs
+//@type src/lex.rs const BIT_CLR_CHAR
+//@type src/lex.rs const BIT_SET_CHAR
+// stand-in for core::fmt::Formatter: a character sink.  ASSUMED: write_str / write_char append exactly their argument,
+// `write!(f, "{:X}", v)` for v < 16 appends ONE character whose value as a hex digit is v
+#[verifier::external_body] pub struct Formatter { _p: u8 }
+pub struct FmtError {}
+pub type FmtResult = Result<(), FmtError>;
+pub uninterp spec fn upper_hex(v: u8) -> char;
+impl Formatter {
+    pub uninterp spec fn out(&self) -> Seq<char>;
+    #[verifier::external_body] pub fn write_str(&mut self, s: &str) -> (r: FmtResult)
+        ensures r is Ok ==> final(self).out() == old(self).out() + s@
+    { unimplemented!() }
+    #[verifier::external_body] pub fn write_char(&mut self, c: char) -> (r: FmtResult)
+        ensures r is Ok ==> final(self).out() == old(self).out().push(c)
+    { unimplemented!() }
+}
+#[verifier::external_body] pub fn verif_upper_hex(f: &mut Formatter, v: u8) -> (r: FmtResult)
+    ensures r is Ok && v < 16 ==> final(f).out() == old(f).out().push(upper_hex(v)) && hexval(upper_hex(v)) == Some(v as u32)
+{ unimplemented!() }
+// FmtFlags (src/fmt_flags.rs): only "fit the screen" matters here (elided output is not meant to be read back)
+#[verifier::external_body] pub struct FmtFlags { _p: u8 }
+impl FmtFlags {
+    pub uninterp spec fn fit(&self) -> bool;
+    #[verifier::external_body] pub fn fitscreen(&self) -> (r: bool) ensures r == self.fit() { unimplemented!() }
+}
+// how many of the bits are covered by the first k groups
+pub open spec fn gcnt(k: int, l: int) -> int { if 8 * k < l { 8 * k } else { l } }
+// the printer's invariant: `out` = `before`, `|`, then characters that read back as bits [s0, q) of src
+pub open spec fn pr_inv(out: Seq<char>, before: Seq<char>, src: Seq<u8>, s0: int, q: int) -> bool {
+    let o = before.len() as int;
+    &&& out.len() >= o + 1 && out.subrange(0, o) == before && out[o] == '|' && s0 <= q
+    &&& bit_body(out, o + 1, out.len() as int)
+    &&& lit_bits(out, o + 1, out.len() as int) == bits_of(src, s0, q)
+}
+proof fn lemma_pr_blank(out: Seq<char>, before: Seq<char>, src: Seq<u8>, s0: int, q: int)
+    requires pr_inv(out, before, src, s0, q)
+    ensures pr_inv(out.push(' '), before, src, s0, q)
+{
+    let o = before.len() as int;
+    lemma_lit_push(out, o + 1, ' ');
+    assert(char_bits(' ') =~= Seq::<bool>::empty());
+    assert(lit_bits(out.push(' '), o + 1, out.len() as int + 1) =~= lit_bits(out, o + 1, out.len() as int));
+    assert(out.push(' ').subrange(0, o) =~= out.subrange(0, o));
+}
+proof fn lemma_pr_nib(out: Seq<char>, before: Seq<char>, src: Seq<u8>, s0: int, q: int, c: char, v: u8)
+    requires
+        pr_inv(out, before, src, s0, q), hexval(c) == Some(v as u32),
+        nib_bit(v as u32, 3) == bit_at(src, q), nib_bit(v as u32, 2) == bit_at(src, q + 1),
+        nib_bit(v as u32, 1) == bit_at(src, q + 2), nib_bit(v as u32, 0) == bit_at(src, q + 3),
+    ensures pr_inv(out.push(c), before, src, s0, q + 4)
+{
+    let o = before.len() as int;
+    lemma_lit_push(out, o + 1, c);
+    assert(char_bits(c) =~= Seq::new(4, |j: int| bit_at(src, q + j)));
+    assert(bits_of(src, s0, q + 4) =~= bits_of(src, s0, q) + Seq::new(4, |j: int| bit_at(src, q + j)));
+    assert(out.push(c).subrange(0, o) =~= out.subrange(0, o));
+}
+proof fn lemma_pr_bit(out: Seq<char>, before: Seq<char>, src: Seq<u8>, s0: int, q: int, c: char)
+    requires pr_inv(out, before, src, s0, q), (c == 'x' && bit_at(src, q)) || (c == '.' && !bit_at(src, q))
+    ensures pr_inv(out.push(c), before, src, s0, q + 1)
+{
+    let o = before.len() as int;
+    lemma_lit_push(out, o + 1, c);
+    assert(char_bits(c) =~= seq![bit_at(src, q)]);
+    assert(bits_of(src, s0, q + 1) =~= bits_of(src, s0, q) + seq![bit_at(src, q)]);
+    assert(out.push(c).subrange(0, o) =~= out.subrange(0, o));
+}
+//@use bitstr.fns "impl fmt::Debug for Cell"::fmt#bitstr
+
 // `==` on bit-strings is equality of the bit sequences
 impl vstd::std_specs::cmp::PartialEqSpecImpl for Bitstr {
     open spec fn obeys_eq_spec() -> bool { true }
